@@ -168,7 +168,7 @@ class RationalPolynomial:
         if isinstance(numer, self.__class__):
             numer = numer.numer
             denom = numer.denom
-        elif isinstance(numer, (list, tuple)):
+        elif isinstance(numer, (list, tuple, int, float)):
             numer = Polynomial(numer)
         if denom is None:
             denom = Polynomial([[1]])
